@@ -228,6 +228,42 @@ def rule_sections_closed(ctx):
                       '%s writes the %s without retiring the iterator: it can be written again on the next call' % (bn, what), loc=c.loc())
 
 
+def rule_no_item_dropped(ctx):
+    """An item taken out of the payload iterator is written before the next one is taken or the chunk is returned (the
+    iterator cannot be rewound): after `iter.next() == Some(item)` every path reaches append_payload - or, in the two
+    list passes of a delta, a test showing the item belongs to the other list - before the next pull or return."""
+    from lib.tables import timeline, strip_suffix
+    for bn, wanted in (('<http::delta::SnapshotStream as std::iter::Iterator>::next', None),
+                       ('http::delta::DeltaStream::next_announce', 'Announce'),
+                       ('http::delta::DeltaStream::next_withdraw', 'Withdraw')):
+        b = ctx.body(bn)
+        short = ('SnapshotStream' if 'SnapshotStream' in bn else 'DeltaStream') + '::' + bn.split('::')[-1]
+        n_pulled = 0
+        bad = None
+        for p in enumerate_paths(b, ctx.facts, max_visits=2):
+            pending = None
+            for t in timeline(p):
+                if t[0] == 'ev':
+                    nm = t[1].callee
+                    if nm.endswith('::append_payload'):
+                        pending = None
+                    elif re.search(r'(PayloadSet|PayloadDiff|Iterator)>?::next$', nm) and pending is not None:
+                        bad = bad or (pending, 'the next item is pulled')
+                else:
+                    v, labs = strip_suffix(t[1]), set(t[2])
+                    if re.match(r'^call:(PayloadSet|PayloadDiff|Iterator)>::next\(.*\)$', v) and labs == {'Some'}:
+                        n_pulled += 1
+                        pending = t[1]
+                    elif wanted and pending is not None and re.search(r'@Some\.0\.1$', v) and wanted not in labs:
+                        pending = None      # belongs to the other list
+            if pending is not None and p.kind == 'return':
+                bad = bad or (pending, 'the chunk is returned (%s)' % p.outcome)
+        ctx.floor('K2', 'paths pulling an item in %s' % short, n_pulled, 2)
+        ctx.check(bad is None, 'K2', '%s:pulled-item-written' % short, 'every pulled item is appended before the next pull / return',
+                  '%s takes an item out of the iterator (%s) and then %s without writing it: the item is lost from the streamed '
+                  'document' % (short, bad[0] if bad else '', bad[1] if bad else ''), loc='%s:%d' % (b.file, b.line))
+
+
 def rule_comma(ctx):
     ap = ctx.body('http::delta::DeltaStream::append_payload')
     pushes = [s for s in ap.calls('Vec::push') if "44" in arg_desc(s, 1) or "b','" in arg_desc(s, 1) or "','" in arg_desc(s, 1)]
@@ -331,4 +367,4 @@ def rule_stream_initial_state(ctx):
                           '"announced")' % (adt.split('::')[-1], f, d[:80]), loc=l.loc())
 
 
-RULES = [rule_stream_initial_state, rule_sections_closed, rule_k6, rule_grammar, rule_comma]
+RULES = [rule_stream_initial_state, rule_sections_closed, rule_no_item_dropped, rule_k6, rule_grammar, rule_comma]
